@@ -24,6 +24,17 @@ type h16_handle struct {
 type h16_fs struct {
 	files   map[string][]byte
 	handles map[*os.File]*h16_handle
+	ops     int // mutating operations performed so far (C07: crash points)
+	crashAt int // panic(h16_crash{}) instead of performing this mutating operation; 0 = never
+}
+
+type h16_crash struct{}
+
+func (fs *h16_fs) tick() {
+	fs.ops++
+	if fs.ops == fs.crashAt {
+		panic(h16_crash{})
+	}
 }
 
 type h16_info struct{ name string }
@@ -53,6 +64,7 @@ func (fs *h16_fs) install() {
 	zzverif.Stub("os file functions: an in-memory file map (Create / Open / OpenFile / Stat / Remove / MkdirAll and *os.File Read / ReadAt / Write / WriteAt / Seek / Close / Sync)")
 	zzverif.Replace("os.MkdirAll", func(name string, perm os.FileMode) error { return nil })
 	zzverif.Replace("os.Create", func(name string) (*os.File, error) {
+		fs.tick()
 		fs.files[name] = []byte{}
 		return fs.open(name, true)
 	})
@@ -70,11 +82,13 @@ func (fs *h16_fs) install() {
 		if _, ok := fs.files[name]; !ok {
 			return os.ErrNotExist
 		}
+		fs.tick()
 		delete(fs.files, name)
 		return nil
 	})
 	zzverif.Replace("(*os.File).Write", func(f *os.File, b []byte) (int, error) {
 		h := fs.handles[f]
+		fs.tick()
 		fs.writeAt(h.name, h.pos, b)
 		h.pos += len(b)
 		return len(b), nil
@@ -83,6 +97,7 @@ func (fs *h16_fs) install() {
 		if off < 0 {
 			return 0, errors.New("negative offset")
 		}
+		fs.tick()
 		fs.writeAt(fs.handles[f].name, int(off), b)
 		return len(b), nil
 	})
